@@ -42,7 +42,7 @@ func persistDocGen(t *rapid.T, p *hProfile) bson.D {
 	return d
 }
 
-var profPersist = &hProfile{name: "persist", cfg: gen.Wide, weights: writeWeights(map[string]int{"reopen": 5, "age": 1, "createIndex": 9, "find": 1, "insertOne": 14, "insertMany": 8, "dropColl": 3, "dropDB": 2}), nss: []string{"d1.c1", "d1.c1", "d1.c2", "d2.c1", "d1.fs.files"}, docGen: persistDocGen, idPool: baseIDs, ttl: true, tinyVals: nil, emptyPartial: true}
+var profPersist = &hProfile{name: "persist", cfg: gen.Wide, weights: writeWeights(map[string]int{"reopen": 5, "litter": 2, "age": 1, "createIndex": 9, "find": 1, "insertOne": 14, "insertMany": 8, "dropColl": 3, "dropDB": 2}), nss: []string{"d1.c1", "d1.c1", "d1.c2", "d2.c1", "d1.fs.files"}, docGen: persistDocGen, idPool: baseIDs, ttl: true, tinyVals: nil, emptyPartial: true}
 
 func isFragile(v interface{}) bool {
 	switch x := v.(type) {
